@@ -25,8 +25,8 @@ EXPLANATION = (
     'job_group_inst_coll_cancellable_resources token-sums must equal the recount from jobs.'
 )
 
-ALPHABET = ['schedule', 'creating', 'started', 'complete', 'unschedule', 'deactivate', 'cancel_group', 'u2_create',
-            'u2_jobs', 'u2_commit']
+ALPHABET = ['schedule', 'creating', 'started', 'complete', 'unschedule', 'deactivate', 'cancel_group', 'cleanup_cancellable',
+            'cleanup_staging', 'u2_create', 'u2_jobs', 'u2_commit']
 
 
 def counted(f):
@@ -228,6 +228,9 @@ DEEP = [
     ('schedule', 'started', 'cancel_group', 'complete'),
     ('schedule', 'deactivate', 'schedule', 'complete'),
     ('creating', 'schedule', 'unschedule', 'cancel_group'),
+    ('cancel_group', 'cleanup_cancellable', 'schedule', 'cancel_group'),   # clean-up between a sub-group cancel and later work
+    ('cancel_group', 'cleanup_cancellable', 'cancel_group', 'complete'),
+    ('cleanup_staging', 'u2_create', 'u2_jobs', 'u2_commit', 'cleanup_staging'),
 ]
 
 
